@@ -6,7 +6,7 @@ CONSTANTS
   Min = 0
   MaxSusp = 1
   MaxOps = 7
-  Waiters = {1, 2}
+  Waiters = {1}
   KeepAlive = FALSE
   Deviations = {}
 VIEW view
